@@ -109,6 +109,7 @@ def check_ieq(case):
         pass
     from pgmpy.models import BayesianNetwork
 
+    deferred = None  # the class seen on the unchanged tree is reported only if nothing else fails for this A
     for j, (B, skB, vsB) in enumerate(others):
         gB = _mk_dag(nodes, B, BayesianNetwork if j % 5 == 3 else None)
         want = skA == skB and vsA == vsB
@@ -119,11 +120,15 @@ def check_ieq(case):
             if got:
                 # class seen on the unchanged tree: skeleton equal, the same *unordered parent pairs* collide, but at different children
                 same_pairs = skA == skB and {ab for ab, c in vsA} == {ab for ab, c in vsB}
-                return {"key": "is_iequivalent:false-positive" if same_pairs else "is_iequivalent:false-positive-other",
-                        "what": f"A={A} B={B}: reported I-equivalent, but v-structures differ: {sorted(map(str, vsA ^ vsB))} "
-                                f"(skeleton equal: {skA == skB})"}
+                f = {"key": "is_iequivalent:false-positive" if same_pairs else "is_iequivalent:false-positive-other",
+                     "what": f"A={A} B={B}: reported I-equivalent, but v-structures differ: {sorted(map(str, vsA ^ vsB))} "
+                             f"(skeleton equal: {skA == skB})"}
+                if same_pairs:
+                    deferred = deferred or f
+                    continue
+                return f
             return {"key": "is_iequivalent:false-negative", "what": f"A={A} B={B}: same skeleton and v-structures but reported not equivalent"}
-    return None
+    return deferred
 
 
 # ============================================================================= 2. semi-graphoid closure
@@ -280,6 +285,22 @@ def check_closure(case):
         return fails[0]
     if len(cl.get_assertions()) != len(got):
         return {"key": "closure:duplicates", "what": "closure lists the same statement twice (up to symmetry)"}
+    return None
+
+
+def check_closure_bounds(case):
+    """every case, modulo the two contraction defects reported by group `closure`: the closure must contain everything derivable
+    without empty-context contraction and must stay inside the saturation under the loosened contraction rule."""
+    stmts, form = case["stmts"], case["form"]
+    base = {canon(*s) for s in stmts}
+    got = _canon_set(_mk_ind(stmts, form).closure())
+    lower, upper = saturate(base, "nonempty-context"), saturate(base, "loose")
+    if not got <= upper:
+        return {"key": "unsound", "what": f"from {[_fmt(c) for c in base]} the closure contains {[_fmt(c) for c in sorted(got - upper, key=_fmt)][:4]}, "
+                                          f"not derivable even with the loosened contraction rule"}
+    if not lower <= got:
+        return {"key": "incomplete", "what": f"from {[_fmt(c) for c in base]} the closure lacks {[_fmt(c) for c in sorted(lower - got, key=_fmt)][:4]} "
+                                             f"(derivable without contraction on an empty context)"}
     return None
 
 
@@ -797,6 +818,10 @@ def groups(tier):
         Group("closure", gen_closure, check_closure, lambda c: True, engine="E3",
               bound="4-variable universe (multi-character names): every assertion set of size 1 (55) and 2 (1485) over all disjoint events, "
                     "4 input forms; + 60 (1500) seeded sets of size 3-4 / sets over 5 variables; compared with an own semi-graphoid saturation"),
+        Group("closure_bounds", gen_closure, check_closure_bounds, lambda c: True, engine="E3",
+              bound="the same assertion sets, all of them (group `closure` stops after 40 failures per worker): closure between the saturation "
+                    "without empty-context contraction and the saturation with the loosened contraction rule, i.e. everything except the two "
+                    "defect classes closure:unsound-contraction / closure:incomplete:contraction-empty-context"),
         Group("entails", gen_entails, check_entails, lambda c: True, engine="E3",
               bound="same assertion sets (quick: singletons, 1/5 of the pairs rotating with the seed, seeded sets); entails for every statement of the closure + 8 outsiders, multi-statement entailment, contains, "
                     "is_equivalent against 4-5 derived sets (closure, swapped, first-only, plus-outsider, reversed)"),
